@@ -198,56 +198,74 @@ def pick_conn(rng, s, kind):
 
 def gen_history(rng):
     s = Sim()
-    n = rng.randint(6, 26)
-    next_conn, next_chan = 0, 0
-    if rng.random() < 0.5:
-        s.add_client(rng.choice(CHAINS))
-        s.add_conn(0, 0)
-        next_conn = 1
+    n = rng.randint(8, 28)
+    st = {"conn": 0, "chan": 0}
+
+    def new_conn(x):
+        conn, st["conn"] = st["conn"], st["conn"] + 1
+        s.add_conn(conn, x)
+        return conn
+
+    def free_conn():
+        conn = pick_conn(rng, s, "free")
+        if conn is None:
+            s.add_client(rng.choice(CHAINS))
+            conn = new_conn(s.next_client - 1)
+        return conn
+
+    def launch_some():
+        """launch a new consumer so that it ends up bound (new client + connection, or a free named connection)"""
+        if rng.random() < 0.5:
+            s.launch(s.ncons, rng.choice(CHAINS), None)
+            return new_conn(s.next_client - 1)
+        conn = free_conn()
+        s.launch(s.ncons, s.clients[s.conns[conn]], conn)
+        return conn
+
     while len(s.ops) < n:
         r = rng.random()
-        if r < 0.06:
+        if r < 0.04:
             s.add_client(rng.choice(CHAINS))
-        elif r < 0.18:
-            if rng.random() < 0.85:
-                conn, next_conn = next_conn, next_conn + 1
-            else:
-                conn = rng.randrange(next_conn + 1)
+        elif r < 0.10:
             known = list(s.clients)
-            x = rng.choice(known) if known and rng.random() < 0.88 else s.next_client + rng.randint(0, 3)
-            s.add_conn(conn, x)
-        elif r < 0.40:
-            # launch
+            x = rng.choice(known) if known and rng.random() < 0.8 else s.next_client + rng.randint(0, 3)
+            if rng.random() < 0.85:
+                new_conn(x)
+            else:
+                s.add_conn(rng.randrange(st["conn"] + 1), x)      # an existing connection id: no effect
+        elif r < 0.34:
             q = rng.random()
             retry = [c for c in range(s.ncons) if s.phase.get(c) == 1]
-            if q < 0.15 and retry:
+            if q < 0.25 and retry:
                 c = rng.choice(retry)
-            elif q < 0.22 and s.ncons:
+            elif q < 0.32 and s.ncons:
                 c = rng.randrange(s.ncons)           # usually not launchable any more
             else:
                 c = s.ncons
-            if rng.random() < 0.4:
+            q = rng.random()
+            if q < 0.30:
                 s.launch(c, rng.choice(CHAINS), None)
             else:
-                kind = rng.choice(["free", "free", "bound", "bound", "noclient", "unknown", "any"])
-                conn = pick_conn(rng, s, kind)
+                kind = "free" if q < 0.55 else "bound" if q < 0.85 else rng.choice(["noclient", "unknown", "any"])
+                conn = free_conn() if kind == "free" else pick_conn(rng, s, kind)
                 if conn is None:
-                    conn = pick_conn(rng, s, "unknown")
+                    conn = free_conn()
                 x = s.conns.get(conn)
                 chain = s.clients.get(x, rng.choice(CHAINS))
-                if rng.random() < 0.12:
+                if rng.random() < 0.08:
                     chain = 15 - chain if chain in CHAINS else chain
                 s.launch(c, chain, conn)
-                if rng.random() < 0.3 and x in s.rev and len(s.ops) < n:   # a second consumer names the same connection
+                if rng.random() < 0.35 and x in s.rev:   # another consumer (same chain id) names the same connection
                     s.launch(s.ncons, chain, conn)
-        elif r < 0.62:
+        elif r < 0.60:
             # try, then usually the channel end + confirm
-            kind = rng.choice(["boundfree", "boundfree", "boundfree", "bound", "free", "noclient", "unknown"])
+            q = rng.random()
+            kind = "boundfree" if q < 0.6 else rng.choice(["bound", "free", "noclient", "unknown", "any"])
             conn = pick_conn(rng, s, kind)
             if conn is None:
-                conn = pick_conn(rng, s, "unknown")
+                conn = launch_some() if kind == "boundfree" else free_conn()
             o, p, cp, v, hops = 2, 0, 1, 0, [conn]
-            if rng.random() < 0.3:
+            if rng.random() < 0.25:
                 dev = rng.randrange(5)
                 if dev == 0:
                     o = rng.choice([0, 1])
@@ -259,7 +277,7 @@ def gen_history(rng):
                     v = rng.choice([1, 2])
                 else:
                     hops = rng.choice([[], [conn, conn], [conn, pick_conn(rng, s, "unknown")]])
-            ch, next_chan = next_chan, next_chan + 1
+            ch, st["chan"] = st["chan"], st["chan"] + 1
             s.emit([5, o, p, cp, v, hops, ch])
             if rng.random() < 0.8 and len(hops) >= 1:
                 s.add_chan(ch, hops[0])
@@ -267,27 +285,29 @@ def gen_history(rng):
                 if rng.random() < 0.25:
                     s.confirm(ch)                     # repeated confirm
                 if rng.random() < 0.25:               # a second channel over the same connection
-                    ch2, next_chan = next_chan, next_chan + 1
+                    ch2, st["chan"] = st["chan"], st["chan"] + 1
                     s.emit([5, 2, 0, 1, 0, [hops[0]], ch2])
                     s.add_chan(ch2, hops[0])
                     s.confirm(ch2)
-        elif r < 0.66:
-            s.confirm(rng.randrange(next_chan + 2))
-        elif r < 0.70:
+        elif r < 0.63:
+            s.confirm(rng.randrange(st["chan"] + 2))
+        elif r < 0.67:
             s.emit([rng.choice([7, 8, 14, 15])])
-        elif r < 0.76:
+        elif r < 0.74:
             launched = [c for c in range(s.ncons) if s.phase.get(c) == 3]
             s.stop(rng.choice(launched) if launched and rng.random() < 0.85 else rng.randrange(s.ncons + 2))
-        elif r < 0.84:
+        elif r < 0.81:
             s.purge()
         else:
             bound = list(s.ch2c)
-            ch = rng.choice(bound) if bound and rng.random() < 0.75 else rng.randrange(next_chan + 2)
+            ch = rng.choice(bound) if bound and rng.random() < 0.8 else rng.randrange(st["chan"] + 2)
             tag = rng.choice([11, 12, 13, 13])
             if tag == 13:
                 s.emit([13, ch])
             else:
                 s.timeout(ch, tag)
+                if rng.random() < 0.3:
+                    s.timeout(ch, rng.choice([11, 12]))   # a second in-flight packet times out
     return s.case()
 
 
